@@ -10,6 +10,7 @@ import (
 	"reservoir/metrics"
 	"reservoir/proxy/headers"
 	"reservoir/utils/countingreader"
+	"reservoir/utils/verifhook"
 	"time"
 
 	"golang.org/x/sync/singleflight"
@@ -291,6 +292,7 @@ func (f *fetcher) getFromCacheOrFetch(req *http.Request, key cache.CacheKey, cli
 // IMPORTANT: Remember to close data streams!
 func (f *fetcher) dedupFetch(req *http.Request, key cache.CacheKey, clientHd *headers.HeaderDirectives) (fetched fetchResult, err error) {
 	slog.Debug("Attempting to dedup fetch...")
+	verifhook.At("fetch.dedup.enter", key.Hex)
 
 	shouldCoalesce := !clientHd.Range.IsPresent() && req.Method == http.MethodGet
 	if !shouldCoalesce {
@@ -306,6 +308,7 @@ func (f *fetcher) dedupFetch(req *http.Request, key cache.CacheKey, clientHd *he
 	fetchedObj, err, shared := f.group.Do(key.Hex, func() (any, error) {
 		return f.getFromCacheOrFetch(req, key, clientHd)
 	})
+	verifhook.At("fetch.dedup.afterDo", key.Hex)
 	if err != nil {
 		if errors.Is(err, ErrNotCacheable) {
 			slog.Debug("Request was not cacheable in singleflight, falling back to direct fetch", "url", req.URL)
